@@ -4,6 +4,7 @@ import (
 	"fmt"
 	"io"
 	"log"
+	"math"
 	"os"
 	"path/filepath"
 	"runtime/debug"
@@ -169,6 +170,10 @@ func EntryFromDump(v sugardb.VerifValue) (*model.Entry, string) {
 			t, ok := scalarText(fv)
 			if !ok {
 				return nil, "hash field of type " + fv.Type
+			}
+			if fv.Type == "float" && !math.IsInf(fv.Float, 0) && !math.IsNaN(fv.Float) {
+				// every hash reader prints a float field in plain decimal
+				t = strconv.FormatFloat(fv.Float, 'f', -1, 64)
 			}
 			e.H[f] = t
 		}
